@@ -15,7 +15,7 @@ def make_mmd(a, ovo, X):
     """Returns (gemini, affinity obtained through compute_affinity, harness affinity)."""
     Aref = gens.ref_affinity_for_form(a, X)
     if a["form"] == "named":
-        g = G.MMDGEMINI(ovo=ovo, kernel=a["name"], kernel_params=a["params"] or None)
+        g = G.MMDGEMINI(ovo=ovo, kernel=a["name"], kernel_params=dict(a["params"]) if a["params"] else None)
         A = g.compute_affinity(X)
     elif a["form"] == "callable":
         g = G.MMDGEMINI(ovo=ovo, kernel=gens.callable_affinity(a))
@@ -29,7 +29,7 @@ def make_mmd(a, ovo, X):
 def make_wass(a, ovo, X):
     Aref = gens.ref_affinity_for_form(a, X)
     if a["form"] == "named":
-        g = G.WassersteinGEMINI(ovo=ovo, metric=a["name"], metric_params=a["params"] or None)
+        g = G.WassersteinGEMINI(ovo=ovo, metric=a["name"], metric_params=dict(a["params"]) if a["params"] else None)
         A = g.compute_affinity(X)
     elif a["form"] == "callable":
         g = G.WassersteinGEMINI(ovo=ovo, metric=gens.callable_affinity(a))
